@@ -911,6 +911,11 @@ def controls(repo):
         calls = [n for n in ast.walk(fn) if isinstance(n, ast.Call) and getattr(n.func, 'id', '') == 'xyz2llh']
         calls[0].args = calls[0].args[:3]
     out.append(('default-ellipsoid', repo.variant({'geodepy/coord.py': replace_in_function(src, 'CoordCart.geo', drop_ell)}), 'CoordCart.geo'))
+    src_ = repo.sources['geodepy/coord.py']
+    a_, b_ = 'from geodepy.constants import Projection, utm, grs80\n', '            self.projection = projection\n'
+    if src_.count(a_) != 1 or src_.count(b_) != 1:
+        raise AnalysisError('control: anchors of the projection-copied control not found in geodepy/coord.py')
+    out.append(('projection-copied', repo.variant({'geodepy/coord.py': src_.replace(a_, 'from copy import copy\n' + a_).replace(b_, '            self.projection = copy(projection)\n')}), 'CoordTM.__init__::projection-stored-as-given'))
     return out
 
 
